@@ -75,7 +75,7 @@ Fixpoint lookup (u : Z) (l : list obj) : option obj :=
 Definition set_state (u : Z) (st : state) (l : list obj) : list obj :=
   map (fun o => if uid o =? u then mkobj (uid o) (oty o) (Some st) (omask o) else o) l.
 
-Definition remove (u : Z) (l : list obj) : list obj := filter (fun o => negb (uid o =? u)) l.
+Definition remove_uid (u : Z) (l : list obj) : list obj := filter (fun o => negb (uid o =? u)) l.
 
 Definition add_obj (s : store) (t : otype) (m : Z) : store :=
   mkstore (objs s ++ [new_obj (next_uid s) t m]) (next_uid s + 1).
@@ -204,7 +204,7 @@ Definition step (cok : bool) (s : store) (o : op) : outcome * store :=
       | None => (Refused RNotFound ItemNotFound, s)
       | Some ob =>
           if is_active ob then (Refused RState PermissionDenied, s)
-          else (OK, mkstore (remove u (objs s)) (next_uid s))
+          else (OK, mkstore (remove_uid u (objs s)) (next_uid s))
       end
   | Encrypt u p => (use_key cok s u p SymmetricKey bENCRYPT, s)
   | Decrypt u p => (use_key cok s u p SymmetricKey bDECRYPT, s)
